@@ -44,6 +44,12 @@ func (c Case) names() []string {
 		switch a.Kind {
 		case "bind", "vbind", "show":
 			add(a.Text)
+			if a.X != nil {
+				add(a.X.A)
+				if a.X.Op == "&&" || a.X.Op == "||" {
+					add(a.X.B)
+				}
+			}
 		case "interp", "lit":
 			add(a.Path)
 		case "dir":
@@ -53,6 +59,11 @@ func (c Case) names() []string {
 		case "obj", "vobj":
 			for _, p := range a.Pairs {
 				switch p.Src {
+				case "expr":
+					add(p.X.A)
+					if p.X.Op == "&&" || p.X.Op == "||" {
+						add(p.X.B)
+					}
 				case "path", "gt", "not":
 					add(p.Arg)
 				case "tern":
